@@ -955,3 +955,6 @@ func firstDiff(a, b []byte) int {
 	}
 	return len(b)
 }
+
+// seedEntropy fixes the process entropy source for plain (non-rapid) units.
+func seedEntropy(seed uint64) { detrand.Seed(seed) }
